@@ -176,6 +176,11 @@ func c11GenPlugin(r *simrt.Rand, idx int, limit time.Duration, backendFiles []st
 				files = append(files, map[string]interface{}{"ip": pt, "content": "// " + nonce("patch") + "\n"})
 			}
 		}
+		// a .go file that is not parseable Go (a template fragment): the formatter cannot touch it and it
+		// must be written as handed in
+		if r.Chance(1, 5) {
+			files = append(files, map[string]interface{}{"name": fmt.Sprintf("plug%d/handler_tpl_%d.go", idx, nf), "content": "package plug\n\nfunc {{.Name}}(ctx context.Context) {\n\t// " + nonce("tpl") + "\n}\n"})
+		}
 		// a named patch (and a following unnamed one) for a file the backend generated
 		if len(backendFiles) > 0 && r.Chance(1, 2) {
 			bf := backendFiles[r.Intn(len(backendFiles))]
@@ -263,8 +268,15 @@ func c11GenPlugin(r *simrt.Rand, idx int, limit time.Duration, backendFiles []st
 			p.Kind = "slow-no-limit"
 		}
 	default:
-		p.Kind = "missing"
-		p.Missing = true
+		if r.Chance(1, 2) {
+			p.Kind = "orphan-first"
+			healthyBody()
+			fs, _ := sc["files"].([]map[string]interface{})
+			sc["files"] = append([]map[string]interface{}{{"ip": "hook", "content": "// " + nonce("orphan") + "\n"}}, fs...)
+		} else {
+			p.Kind = "missing"
+			p.Missing = true
+		}
 	}
 	p.Script = sc
 	return p
@@ -462,6 +474,8 @@ func c11Judge(c *c11Case, wr *worldRun) *c11Verdict {
 			anyFailure = fmt.Sprintf("plugin %s answered with an error", pl.Name)
 		case cls == "invalid":
 			anyFailure = fmt.Sprintf("plugin %s wrote output that is not a Response (%s)", pl.Name, pl.Script["mangle"])
+		case pl.Kind == "orphan-first" && cls == "valid" && string(pr.Notes["out.mangled"]) == "false":
+			anyFailure = fmt.Sprintf("plugin %s's response begins with a patch that has no target file", pl.Name)
 		}
 		if anyFailure != "" {
 			break
@@ -473,6 +487,66 @@ func c11Judge(c *c11Case, wr *worldRun) *c11Verdict {
 			return bad("plugin-failure-ignored", "plugin-failure-ignored", "%s, yet thriftgo exited with status 0", anyFailure)
 		}
 		return v
+	}
+
+	// ---- clause 2: what a healthy plugin answered is what is handed to the file manager ----
+	{
+		groups := feedGroups(res)
+		gi := -1
+		used := map[string]int{} // per (group, plugin) next feed to match
+		_ = used
+		// processes run in order; a new group starts whenever the first plugin of the command line runs again
+		var firstPlugin string
+		if len(c.Plugins) > 0 {
+			firstPlugin = c.path(&c.Plugins[0])
+		}
+		for _, pr := range res.Procs {
+			pl := byPath[pr.Path]
+			if pl == nil {
+				continue
+			}
+			if pr.Path == firstPlugin {
+				gi++
+			}
+			if gi < 0 || gi >= len(groups) || !pr.Finished || pr.Exit != 0 || string(pr.Notes["out.mangled"]) != "false" || noteStr(pr.Notes, "out.class") != "valid" || pl.Script["error"] != nil && pr.Notes["fault.skipped_for_language"] == nil {
+				continue
+			}
+			if pl.Kind == "orphan-first" {
+				continue
+			}
+			// the feed of this plugin in this language group
+			var fc *fedCall
+			for k := range groups[gi] {
+				if groups[gi][k].Src == pl.Name {
+					fc = &groups[gi][k]
+				}
+			}
+			fs, _ := pl.Script["files"].([]interface{})
+			if fc == nil {
+				if len(fs) > 0 && exit == 0 {
+					return bad("response-not-honoured", "response-not-honoured:not-fed", "plugin %s answered healthily with %d items, but nothing of it was handed to the file manager", pl.Name, len(fs))
+				}
+				continue
+			}
+			outPath := noteStr(pr.Notes, "req.output_path")
+			if len(fc.Files) != len(fs) {
+				return bad("response-not-honoured", "response-not-honoured:count", "plugin %s answered with %d items, %d were handed to the file manager", pl.Name, len(fs), len(fc.Files))
+			}
+			for k, raw := range fs {
+				f, _ := raw.(map[string]interface{})
+				name, _ := f["name"].(string)
+				if name != "" && pl.Script["out_prefix"] == "$OUT" && outPath != "" && f["abs"] != true {
+					name = outPath + "/" + name
+				}
+				content, _ := f["content"].(string)
+				ip, _ := f["ip"].(string)
+				g := fc.Files[k]
+				if string(g.Content) != content || string(g.Name) != name || string(g.IP) != ip {
+					return bad("response-not-honoured", "response-not-honoured:item", "item %d of plugin %s's answer is (name %q, point %q, %d bytes) but (name %q, point %q, %d bytes) was handed to the file manager", k, pl.Name, name, ip, len(content), string(g.Name), string(g.IP), len(g.Content))
+				}
+			}
+			v.Trivia["responses-compared"]++
+		}
 	}
 
 	// ---- clause 5: exit 0 => complete output ----
